@@ -341,6 +341,10 @@ class DegreeAnalysis:
             for d in _leaves(pos[0]):
                 r = self._add(r, d, t)
             return r
+        if name in ('numpy.append', 'numpy.insert') and len(pos) >= 2:
+            # both operands end up in one array: they must have the same degree
+            vals = pos[-1] if name == 'numpy.insert' else pos[1]
+            return self._add(pos[0], vals, t)
         if name in SAME and pos:
             if name in ('numpy.zeros_like', 'numpy.ones_like'):
                 return ANY if name.endswith('zeros_like') else 0
